@@ -22,7 +22,11 @@ def run(ctx):
     need = ["accepted", "rejected", "namespace_with_two_or_more_pools", "pool_with_three_or_more_bgp_advs",
             "sortedcopy_unsorted_input_3plus", "reconciler_runs", "reconciler_runs_with_two_pools_in_one_namespace",
             "dualclash_lengths_differ_in_ipv4_only_rejected", "dualclash_lengths_differ_in_ipv6_only_rejected",
-            "dualclash_lengths_differ_in_both_accepted", "dualclash_lengths_differ_in_none_rejected"]
+            "dualclash_lengths_differ_in_both_accepted", "dualclash_lengths_differ_in_none_rejected",
+            "echomix_must_be_refused", "echomix_must_be_accepted", "reconciler_allocator_runs",
+            "reconciler_allocator_runs_priority_order_differs_from_name_order", "allocator_allocate_ok",
+            "allocator_allocate_in_namespace_with_several_pinned_pools", "allocator_allocatefrompool_ok",
+            "allocator_unassign", "allocator_assign_ok"] + ["echomix_variant_%d" % v for v in range(1, 9)]
     if cases and not ctx.replay_in and not ctx.violations and not ctx.corr_broken and any(st.get(k, 0) == 0 for k in need):
         raise Exception("generator degenerate: %r" % st)
 
